@@ -406,6 +406,59 @@ def check_modes(ctx):
         raise AnalysisError('_make_tree: ' + undecided_modes)
 
 
+def peeled_schedule(fi):
+    """G = nx.Graph(self.tree); root = <a node>; C = []
+       while len(G) > 1:  L = [i for i in G.nodes() if G.degree(i) == 1 and i != root];  C += [(i, j) for i in L for j in G.neighbors(i)];  G.remove_nodes_from(L)
+       return C + [(j, i) for i, j in reversed(C)]
+    Every round removes the current leaves, each sending to its one remaining neighbour: a clique reports after all its other neighbours have.
+    The root must be EXCLUDED from the leaves: when only two cliques are left both have degree one, and without the exclusion each sends to
+    the other in the collect sweep - and again in the distribute sweep: those two messages are absorbed twice.  -> (ok, why, node) or None"""
+    from ..engines.blockeval import T
+    src = getattr(fi, 'original', fi)
+    whiles = [w for w in src.node.body if isinstance(w, ast.While)]
+    if len(whiles) != 1:
+        return None
+    w = whiles[0]
+    m = re.fullmatch(r'len\((\w+)\)>1', T(w.test))
+    if not m:
+        return None
+    G = m.group(1)
+    gdef = [a.value for a in src.node.body if isinstance(a, ast.Assign) and len(a.targets) == 1 and U(a.targets[0]) == G]
+    if len(gdef) != 1 or T(gdef[0]) not in ('nx.Graph(self.tree)', 'self.tree.copy()', 'nx.Graph(self.tree.edges())'):
+        return None
+    leaves = [a for a in w.body if isinstance(a, ast.Assign) and len(a.targets) == 1 and isinstance(a.value, ast.ListComp)]
+    adds = [a for a in w.body if isinstance(a, ast.AugAssign) and isinstance(a.op, ast.Add) and isinstance(a.value, ast.ListComp)]
+    rem = [a for a in w.body if isinstance(a, ast.Expr) and T(a.value).startswith('%s.remove_nodes_from(' % G)]
+    if len(leaves) != 1 or len(adds) != 1 or len(rem) != 1 or len(w.body) != 3:
+        return None
+    L = U(leaves[0].targets[0])
+    lc = leaves[0].value
+    i = U(lc.generators[0].target)
+    conds = [T(c) for g in lc.generators for c in g.ifs]
+    conds = [x for c in conds for x in c.split('and')] if len(conds) == 1 else conds
+    if T(lc.elt) != i or T(lc.generators[0].iter) not in ('%s.nodes()' % G, '%s.nodes' % G, G, 'list(%s.nodes())' % G, 'list(%s)' % G) \
+            or '%s.degree(%s)==1' % (G, i) not in conds or T(rem[0].value) != '%s.remove_nodes_from(%s)' % (G, L):
+        return None
+    C = U(adds[0].target)
+    ac = adds[0].value
+    if not (len(ac.generators) == 2 and T(ac.generators[0].iter) == L and T(ac.generators[1].iter) == '%s.neighbors(%s)' % (G, U(ac.generators[0].target))
+            and T(ac.elt) == '(%s,%s)' % (U(ac.generators[0].target), U(ac.generators[1].target)) and not ac.generators[0].ifs and not ac.generators[1].ifs):
+        return None
+    rets = [r for r in src.node.body if isinstance(r, ast.Return)]
+    if len(rets) != 1 or not re.fullmatch(r'%s\+\[\((\w+),(\w+)\)for\2,\1inreversed\(%s\)\]' % (C, C), T(rets[0].value)):
+        return None
+    others = [c for c in conds if c != '%s.degree(%s)==1' % (G, i)]
+    roots = [mm.group(1) for c in others for mm in [re.fullmatch(r'%s!=(\w+)' % i, c) or re.fullmatch(r'(\w+)!=%s' % i, c)] if mm]
+    fixed = [r_ for r_ in roots if any(isinstance(a, ast.Assign) and U(a.targets[0]) == r_ and a.lineno < w.lineno for a in src.node.body)
+             and not any(isinstance(n, ast.Name) and n.id == r_ and isinstance(n.ctx, ast.Store) for n in ast.walk(w))]
+    if len(others) == 1 and fixed:
+        return True, 'the leaves never include the fixed root `%s`, so the last edge is emitted in one direction only' % fixed[0], w
+    if not others:
+        return False, ('no clique is kept as the root: when two cliques are left both are leaves, each sends to the other in the collect sweep and again in the '
+                       'distribute sweep - belief propagation absorbs those two messages twice'), leaves[0]
+    return None
+
+
 def running_best(fi, p):
     """the integer mode written as a running best:
            best = self._greedy_order(False);  for _ in range(p): cand = self._greedy_order(True[, best[1]]);  if cand[1] < best[1]: best = cand;  order = best[0]
@@ -641,6 +694,15 @@ def check_schedule(ctx):
                     ctx.ob('schedule', fi, fi.node, ok, 'two-sweep schedule over the traversal `%s`: collect in reverse, then distribute in traversal order%s'
                            % (up[2][:60], '' if ok else ': ' + '; '.join(why)), construct='collect / distribute schedule')
                 return
+    if not graphs:
+        pl = peeled_schedule(fi)
+        if pl is not None:
+            okp, whyp, wherep = pl
+            ctx.ob('schedule', fi, wherep, okp, 'schedule by peeling the leaves off a copy of the tree (collect), then the same messages reversed and turned round '
+                   '(distribute): ' + whyp, construct='leaf-peeling schedule')
+            ctx.ob('schedule', fi, fi.node, True, 'one message per direction of every tree edge (each edge is emitted when its leaf end is peeled, and once more turned round)',
+                   construct='message set of the schedule')
+            return
     if len(graphs) != 1:
         raise AnalysisError('mp_order: expected one dependency graph (receiver of add_edges_from), found %s' % graphs)
     G = graphs[0]
